@@ -49,7 +49,15 @@ XP == << << [axis |-> "child", test |-> "a"] >>,
          \* 5..7: paths that leave the record (Stream.tla): `..`, `../a`, `../b`
          << [axis |-> "parent", test |-> "*"] >>,
          << [axis |-> "parent", test |-> "*"], [axis |-> "child", test |-> "a"] >>,
-         << [axis |-> "parent", test |-> "*"], [axis |-> "child", test |-> "b"] >> >>
+         << [axis |-> "parent", test |-> "*"], [axis |-> "child", test |-> "b"] >>,
+         \* 8..13: positional predicates (StreamSelect!PosOK): `a[1]`, `a[2]`, `a[last()]`, `*[last()]`, `*[2]`, `a/b[last()]`
+         \* - they single out one of several equally named siblings, so a field / object anchors where the bare name fails
+         << [axis |-> "child", test |-> "a", pos |-> "1"] >>,
+         << [axis |-> "child", test |-> "a", pos |-> "2"] >>,
+         << [axis |-> "child", test |-> "a", pos |-> "last"] >>,
+         << [axis |-> "child", test |-> "*", pos |-> "last"] >>,
+         << [axis |-> "child", test |-> "*", pos |-> "2"] >>,
+         << [axis |-> "child", test |-> "a"], [axis |-> "child", test |-> "b", pos |-> "last"] >> >>
 
 NilV == <<"nil">>
 FailV == <<"FAIL">>
